@@ -23,6 +23,9 @@ func (v *Verifier) fnTermFor(fn *ssa.Function) *Term {
 	if !v.D.seen["fnfacts:"+name] {
 		v.D.seen["fnfacts:"+name] = true
 		v.D.facts = append(v.D.facts, tNot(tEq(t, tNilF)))
+		// function identity (capture-free function literals are plain function values, not MakeClosure results)
+		v.D.declFun("zz_cloid", []string{"Fn"}, "Int")
+		v.D.facts = append(v.D.facts, tEq(mk("Int", "zz_cloid", t), intLit(int64(cloID(fn)))))
 		v.defineAxioms(fn, t)
 		v.selfFacts(fn, t, nil)
 	}
@@ -105,6 +108,26 @@ func (v *Verifier) constTerm(c *ssa.Const) *Term {
 	s := v.D.sortOf(t)
 	if c.Value == nil {
 		return v.D.zero(t)
+	}
+	if _, ok := types.Unalias(t).(*types.TypeParam); ok && strings.HasPrefix(s, "TP_") {
+		// T(c) for a type parameter T: the same uninterpreted conversion a contract's T(c) denotes
+		var base *Term
+		switch c.Value.Kind() {
+		case constant.Bool:
+			base = tFalse
+			if constant.BoolVal(c.Value) {
+				base = tTrue
+			}
+		case constant.String:
+			base = strLit(constant.StringVal(c.Value))
+		case constant.Int:
+			base = bigLit(c.Value.ExactString())
+		}
+		if base != nil {
+			name := "zz_conv_" + sortTag(base.Sort) + "_to_" + sortTag(s)
+			v.D.declFun(name, []string{base.Sort}, s)
+			return mk(s, name, base)
+		}
 	}
 	switch c.Value.Kind() {
 	case constant.Bool:
@@ -436,7 +459,8 @@ func (v *Verifier) step(st *State, b *ssa.BasicBlock, i int, in ssa.Instruction)
 		return true
 	case *ssa.ChangeType:
 		t := v.val(st, x.X)
-		if _, toIface := v.substT(x.Type()).Underlying().(*types.Interface); toIface && t.Sort != "Iface" {
+		_, toTP := types.Unalias(v.substT(x.Type())).(*types.TypeParam)
+		if _, toIface := v.substT(x.Type()).Underlying().(*types.Interface); toIface && !toTP && t.Sort != "Iface" {
 			// conversion of a type-parameter typed value to an interface: boxing
 			v.bind(st, x, v.box(st, t, x.X.Type()))
 			return true
